@@ -577,7 +577,9 @@ func genPos(rng *rand.Rand, mode string) genPosT {
 		switch rt := rng.IntN(8); {
 		case rt < 2: // third occurrence through the move list
 			base := ordinaryRoots[rng.IntN(len(ordinaryRoots))]
-			g.text, g.black = shuffle(rng, base, 0, 8+rng.IntN(6), true)
+			// 12 plies: the positions after 4, 8 and 12 plies are equal even when the base position itself is
+			// different from them (an en-passant square in the FEN)
+			g.text, g.black = shuffle(rng, base, 0, 12+rng.IntN(6), true)
 			g.kind = "third_occurrence_by_moves"
 		default:
 			f := finalRoots[rng.IntN(len(finalRoots))]
@@ -1076,7 +1078,7 @@ var (
 	// the halfmove clock is an int8 in the engine: after 128 reversible plies the `fen` command prints a
 	// negative clock (a whole line, so not a torn line; counted, see the histogram)
 	reNegClock = regexp.MustCompile(`^[1-8pnbrqkPNBRQK/]+ [wb] \S+ \S+ -\d+ \d+\n$`)
-	reOther = regexp.MustCompile(`^(id name chess-3 \S+|id author Paul Sonkoly|option name \w+ type (spin default \d+ min \d+ max \d+|check default false)|uciok|[1-8pnbrqkPNBRQK/]+ [wb] (-|[KQkq]+) (-|[a-h][36]) -?\d+ \d+|-?\d+|cp -?\d+|mate -?\d+|\S+ nps)$`)
+	reOther    = regexp.MustCompile(`^(id name chess-3 \S+|id author Paul Sonkoly|option name \w+ type (spin default \d+ min \d+ max \d+|check default false)|uciok|[1-8pnbrqkPNBRQK/]+ [wb] (-|[KQkq]+) (-|[a-h][36]) -?\d+ \d+|-?\d+|cp -?\d+|mate -?\d+|\S+ nps)$`)
 )
 
 func classify(line string) string {
